@@ -35,6 +35,9 @@ CHECKS = {
  "C14": ("Trees of clone()/deep_clone() engines execute generated interleavings of commits, masks, validations, rollbacks and forced-byte queries; every result must equal that of a private engine (own factory) with the same net history. All 20 interleavings of two 3-act scripts are enumerated per case; additionally 2-16 clones run on real OS threads behind a barrier against precomputed private results. llg_par_compute_mask is compared with sequential masks in the C17 harness.",
          "owned schedules at API-call granularity; OS-thread schedules are sampled, not controlled",
          "stateful property-based testing with owned schedules (exhaustive for short runs) + real-thread stress against a private-engine model"),
+ "C16": ("Four generated case families: SimpleVob operation sequences at sizes around the 32-bit word boundaries against a BTreeSet model (every accessor, and no bit at/above the size); arbitrary vocabularies with a random byte-level DFA acceptor, start prefixes and filter masks against 'test every token separately' (token<->bytes, add_bias, has_valid_extensions, filter, prefix lookups, decode, greedy round trip); hand-built tokenizer.json descriptions (byte-level GPT-2 table + merges, byte-fallback with nested Sequence decoders, added special/non-special tokens) against a reference mapping through both the JSON reader and the HuggingFace adapter with text round trips incl. invalid UTF-8; tiktoken rank tables with holes and specials.",
+         "operations are called within their documented preconditions; texts containing 0xFF, an added token's content or the space-replacement character are excluded",
+         "model-based property testing (set model / naive per-token model / reference byte mappings)"),
  "C19": ("Vocabularies with special tokens and plain look-alike tokens; sequence templates mixing literals, a class containing < | >, and token references (<name>, <[id]>, ranges, negated ranges, <[*]>) with position tracking by the generator: at reference positions the mask must equal exactly the denoted id set (validate and commit agreeing), at text positions no special/marker/empty token may be allowed or accepted; tokenisation of names in text vs marked names is checked per vocabulary.",
          "reference sets are computed by the harness from the documented range semantics; EOS ids at text positions follow C01's accepting clause",
          "property-based testing with generator-side position tracking (validity predicate per state)"),
